@@ -391,10 +391,9 @@ namespace fixedmath
     [[ gnu::const, gnu::always_inline ]]
     constexpr fixed_t fixed_multiplyi (fixed_t lh, fixed_t rh) noexcept
       {
-      fixed_t result { fix_carrier_t{ lh.v * rh.v }};
-
-      if( fixed_likely( check_multiply_result(result)) )
-        return fix_carrier_t{ result.v >> 16 };
+      fixed_internal result{};
+      if( fixed_likely( !mul_overflow( lh.v, rh.v, result ) ) )
+        return fix_carrier_t{ result >> 16 };
       
       return quiet_NaN_result();
       }
@@ -424,10 +423,13 @@ namespace fixedmath
     [[ gnu::const, gnu::always_inline ]]
     constexpr fixed_t fixed_multiply_scalar (fixed_t lh, integral_type rh) noexcept
       {
-      fixed_t result { fix_carrier_t{ lh.v * promote_type_to_signed(rh) }};
-
-      if( fixed_likely( check_multiply_result(result)) )
-        return result;
+      if constexpr ( is_unsigned_v<integral_type> && sizeof(integral_type) == sizeof(fixed_internal) )
+        if( fixed_unlikely( rh > static_cast<integral_type>(std::numeric_limits<fixed_internal>::max()) ) )
+          return lh.v == 0 ? fixed_t{} : quiet_NaN_result();
+      fixed_internal result{};
+      if( fixed_likely( !mul_overflow( lh.v, static_cast<fixed_internal>(promote_type_to_signed(rh)), result )
+                        && result != std::numeric_limits<fixed_internal>::min() ) )
+        return as_fixed(result);
       return quiet_NaN_result();
       }
     template<typename integral_type,
